@@ -86,3 +86,36 @@ Lemma state_access_locked :
   rsa_state_accesses <> [] /\
   forallb (fun a => match a with (_, _, _, locked) => locked end) rsa_state_accesses = true.
 Proof. split; [discriminate|vm_compute; reflexivity]. Qed.
+
+(* the range / length / structure guards on which the acceptance theorems rest are present in the code
+   (condition text normalised by ast.unparse; effect of the guarded branch) *)
+Definition expected_range_guards : list (string * string * string) := [
+  ("_raw_public_key_op_bytes", "len(ciphertext) != numBytes(n)", "raise");
+  ("_raw_public_key_op_bytes", "c_int >= n", "raise");                     (* RFC 8017 5.2.2 step 1 *)
+  ("_raw_private_key_op_bytes", "len(message) != numBytes(n)", "raise");
+  ("_raw_private_key_op_bytes", "m_int >= n", "raise");
+  ("_raw_pkcs1_verify", "numBytes(self.n) < len(bytes) + 11", "return-false");
+  ("_raw_pkcs1_sign", "numBytes(self.n) < len(bytes) + 11", "raise");
+  ("verify", "0 < r < self.q and 0 < s < self.q", "branch");               (* FIPS 186-4 4.7 *)
+  ("verify", "not signature", "return-false");
+  ("verify", "padding == 'pkcs1' and self.key_type == 'rsa-pss'", "return-false");
+  ("EMSA_PSS_verify", "emLen < hashLen + sLen + 2", "raise");
+  ("EMSA_PSS_verify", "EM[-1] != 188", "raise");
+  ("EMSA_PSS_verify", "maskedDB[0] & DBHelpMask != 0", "raise");
+  ("EMSA_PSS_verify", "DB[emLen - hashLen - sLen - 2] != 1", "raise");
+  ("RSASSA_PSS_verify", "any(EM[:len(EM) - emLen])", "raise");
+  ("__init__", "not 1 < self.generator < self.prime", "raise");
+  ("calc_public_value", "dh_Y in (1, self.prime - 1)", "raise");
+  ("_normalise_peer_share", "numBytes(self.prime) != len(peer_share)", "raise");
+  ("calc_shared_key", "not 2 <= peer_share < self.prime - 1", "raise");
+  ("calc_shared_key", "S in (1, self.prime - 1)", "raise");
+  ("calc_shared_key", "len(peer_share) != size", "raise");
+  ("_non_zero_check", "summa == 0", "raise")
+].
+
+Definition guard_eqb (a b : string * string * string) : bool :=
+  match a, b with (f1, c1, k1), (f2, c2, k2) => String.eqb f1 f2 && String.eqb c1 c2 && String.eqb k1 k2 end.
+
+Lemma guards_present :
+  forallb (fun g => existsb (guard_eqb g) range_guards) expected_range_guards = true.
+Proof. vm_compute. reflexivity. Qed.
